@@ -5,11 +5,17 @@ LEVEL = 'model_checking'
 
 def run(ctx):
     th = ctx.tier == 'thorough'
-    cc.model(ctx, ['MC_cluster_thorough.cfg'] if th else [],
-             {'MC_cluster_neg_order.cfg': 'BatchOrder', 'MC_cluster_neg_txnomulti.cfg': 'TxResentWhole', 'MC_cluster_neg_denied.cfg': 'NoResendAfterDenied'})
-    gens = ['Gen_cluster_batch.cfg', 'Gen_cluster_tx.cfg', 'Gen_cluster_denied.cfg']
+    negs = {'MC_cluster_neg_order.cfg': 'BatchOrder', 'MC_cluster_neg_txnomulti.cfg': 'TxResentWhole', 'MC_cluster_neg_denied.cfg': 'NoResendAfterDenied',
+            # round 2: the transaction flag lost on the refresh-on-pick path / on the ASK sub-batch, a pooled retry object that keeps
+            # the length of its ASK index list
+            'MC_cluster_neg_refreshinit.cfg': 'TxResentWhole', 'MC_cluster_neg_askrun.cfg': 'TxResentWhole', 'MC_cluster_neg_pool.cfg': 'BatchOrder'}
+    # round 2: inittx = transactions whose slot is found by a refresh on pick and which are redirected in the same DoMulti;
+    # hop = two-hop redirects (ASK -> MOVED by the ASK target, MOVED -> ASK); pool = two batches in a row on one client with
+    # ASK-redirected members at several positions (the retry bookkeeping objects are pooled)
+    gens = ['Gen_cluster_batch.cfg', 'Gen_cluster_tx.cfg', 'Gen_cluster_denied.cfg', 'Gen_cluster_inittx.cfg', 'Gen_cluster_hop.cfg', 'Gen_cluster_pool.cfg']
     if th:
-        cc.sim(ctx, gens, 0, 250, focus='multi,multi,multicache', tracefiles=8)
+        cc.sim(ctx, gens, 0, 250, focus='multi,multi,multicache', tracefiles=8, mc=['MC_cluster_thorough.cfg'], negs=negs)
     else:
-        cc.sim(ctx, gens, {'Gen_cluster_batch.cfg': 40, 'Gen_cluster_tx.cfg': 40, 'Gen_cluster_denied.cfg': 12}, 24, focus='multi,multi,multicache', tracefiles=4)
+        cc.sim(ctx, gens, {'Gen_cluster_batch.cfg': 30, 'Gen_cluster_tx.cfg': 30, 'Gen_cluster_denied.cfg': 12, 'Gen_cluster_inittx.cfg': 30,
+                           'Gen_cluster_hop.cfg': 30, 'Gen_cluster_pool.cfg': 40}, 24, focus='multi,multi,multicache', tracefiles=8, negs=negs)
     ctx.exhaustive = th      # the quick tier replays a seeded sample of the TLC-generated scenarios, the thorough tier all of them
